@@ -8,8 +8,11 @@ W=$(mktemp -d /tmp/mutant-XXXXXX)
 cp -r /repo/src "$W/src"
 if [ "$P" != "-" ]; then (cd "$W" && patch -p1 -s < "$P"); fi
 cd /verif
+# the evidence file must only ever come from a run against /repo itself: keep it aside and put it back afterwards
+[ -f "evidence/$ID.json" ] && cp "evidence/$ID.json" "$W/evidence.keep"
 set +e
 PYTHONPATH="$W/src:/verif" PYTHONHASHSEED=0 PYTHONDONTWRITEBYTECODE=1 PFST_VERIF=1 /venv/bin/python -m checks.main "$ID" "$@"
 RC=$?
+[ -f "$W/evidence.keep" ] && cp "$W/evidence.keep" "evidence/$ID.json"
 rm -rf "$W"
 exit $RC
